@@ -5,7 +5,7 @@ CONSTANTS
   Rank <- W_Rank
   InitH = 1
   Guide <- W_Guide
-  MaxSteps = 5
+  MaxSteps = 3
   AllowCrash = FALSE
   AvoidPanics = FALSE
   EmitAll = FALSE
@@ -13,5 +13,4 @@ INIT Init
 NEXT Next
 VIEW View
 CHECK_DEADLOCK FALSE
-INVARIANTS C04_Chain C07_ViewVS
-PROPERTIES C04_Immutable C04_Monotone
+INVARIANTS C09_NoPanic
